@@ -119,7 +119,8 @@ def run_c19(tier):
     chk = core.Check('C19', tier)
     chk.rule = ('same corpus as C01; a case = (type, value); the little- and big-endian encodings produced by the real Python codec '
                 'are compared chunk by chunk using the chunk map of Spec.chunks (scalars mirrored, paddings zero, same length); '
-                'non-trivial = encoding has a multi-byte scalar and a padding byte. The C++ half of C19 is checked by the C03 driver batches.')
+                'non-trivial = encoding has a multi-byte scalar and a padding byte. C++ half: encode<little>() / encode<big>() / encode() of '
+                'objects decoded by the generated C++ full codec (g++, ASan+UBSan) compared the same way.')
     chk.lean = core.lean_obligations('C19', thorough=(tier == 'thorough'))
     corpus = Corpus(chk, chk.scale(120, 1500), dict(n_decls=8))
     try:
@@ -152,7 +153,43 @@ def run_c19(tier):
                 chk.correspondence_mismatch('Py.encode big = Message.encode(">")', casej, be, ans[2 * i + 1])
     finally:
         corpus.close()
+    cpp_half_c19(chk)
     return chk.finish()
+
+
+def cpp_half_c19(chk):
+    """C++ full codec's vector encoders: encode<little>() vs encode<big>() vs encode() on the same object"""
+    from harness.checks.cppcorpus import CppCorpus
+    cc = CppCorpus(chk, chk.scale(2, 20))
+    try:
+        cc.report_build_errors()
+        reqs = cc.deft_requests()
+        nd = len(reqs)
+        cases = []
+        for c in cc.types:
+            for _ in range(chk.scale(3, 6)):
+                v = V.gen_value(chk.rng, c.tree)
+                cases.append((c, v))
+                reqs.append({'op': 'spec_enc', 't': c.tid, 'v': v, 'e': '<'})
+                reqs.append({'op': 'spec_chunks', 't': c.tid, 'v': v})
+        ans = client.batch(reqs)[nd:]
+        out = cc.run([(c, {'op': 'decode', 'e': 'little', 'data': ans[2 * i]['bytes']}) for i, (c, v) in enumerate(cases)])
+        for i, ((c, v), o) in enumerate(zip(cases, out)):
+            if not o.get('ok') or not ans[2 * i + 1]['gal'] or 'enc_little' not in o:
+                chk.bump('cpp:object-not-built')
+                continue
+            chunks = ans[2 * i + 1]['chunks']
+            casej = {'schema': c.text, 'type': c.name, 'value': v, 'codec': 'C++ full'}
+            chk.count(('cpp', c.tree, v), any(k == 's' and n > 1 for k, n in chunks) and any(k == 'p' and n > 0 for k, n in chunks))
+            chk.bump('cpp:compared')
+            le, be, nat = (bytes.fromhex(o[k]) for k in ('enc_little', 'enc_big', 'enc_native'))
+            why = mirror_ok(le, be, chunks)
+            if why:
+                chk.property_violation(casej, {'what': 'C++ encode<little>() / encode<big>(): ' + why, 'little': o['enc_little'], 'big': o['enc_big'], 'chunks': chunks})
+            if nat != le:
+                chk.property_violation(casej, {'what': "C++ encode() ('native') differs from the host byte order (little)", 'native': o['enc_native'], 'little': o['enc_little']})
+    finally:
+        cc.close()
 
 
 def decode_impl(case, data, e):
